@@ -3,7 +3,7 @@
 DEFAULT_SEED = 20261004
 
 SIM_ALLOC = "allocator (custom hooks: private arena with redzones, released blocks quarantined for the run or - a third of the custom runs - handed to the next request of the same size; default: renamed malloc/free/realloc with ledger)"
-SIM_BORROW = "memory the caller lends (constant keys, texts of string references, member names and pointer texts of patches built through the constructors): read-only mappings while the library runs"
+SIM_BORROW = "memory the caller lends (constant keys, texts of string references, member names and pointer texts of patches built through the constructors): read-only mappings while the library runs, every lent text ends flush against a poisoned granule"
 SIM_IN = "input buffer (bytes flush against an inaccessible page, read-only during the call)"
 SIM_OUT = "caller output buffer (capacity n flush against an inaccessible page, canaries in front)"
 SIM_SCHED = "task scheduler (cooperative fibers on one OS thread; every switch decided by the plan)"
@@ -54,7 +54,7 @@ PROPS = {
     "C16": P("asan", "exploration", (60000, 25), (2500000, 420),
              "documents with distinct keys over an alphabet containing / ~ 0 1 - and the empty key; patches of 1-8 operations are assembled step by step against the evolving reference state (valid pointers incl. ~0 ~1 and '-', deliberate failures: missing member, index out of range, failed test, missing op/path/value/from, move into own child) and applied with cJSONUtils_ApplyPatchesCaseSensitive; status must be 0 exactly when the reference RFC 6902 evaluator succeeds and then the documents must be equal (objects as sets). patch_corrupt faults (type swaps, member deletion, number in 'from', non-array root, odd pointers) are judged for robustness only: no crash, well-formed document, balanced ledger. Distinct by (patch text, document text) for patches the reference accepts.",
              "(patch, document) pairs that the reference evaluator applies successfully",
-             [SIM_ALLOC, SIM_IN, SIM_BORROW], probes=["patch_succeeded", "patch_failed_as_predicted", "patch_corrupt_survived", "patch_built_through_constructors_with_lent_texts", "patch_move_target_exists_only_after_removal"]),
+             [SIM_ALLOC, SIM_IN, SIM_BORROW], probes=["patch_succeeded", "patch_failed_as_predicted", "patch_corrupt_survived", "patch_built_through_constructors_with_lent_texts", "patch_move_target_exists_only_after_removal", "patch_pointer_without_any_slash", "patch_pointer_ends_in_a_lone_tilde"]),
     "C17": P("asan", "exploration", (80000, 25), (2500000, 420),
              "pairs (from, to): independent documents or 'to' derived from 'from' by 1-6 edits, keys including / and ~; cJSONUtils_GeneratePatchesCaseSensitive must return an array of well-formed operations that, applied to a copy of 'from' by the library and to the model by the reference evaluator, yields 'to'; empty iff equal; both inputs must keep exactly their nodes (order free) and stay well-formed, and 3-15 follow-up edits on them are judged against the list/map model. Distinct by (patch text, from text) for non-empty patches.",
              "(generated patch, from-document) pairs with a non-empty patch",
